@@ -16,7 +16,7 @@ NormDesc(d) ==
     [] OTHER -> d
 NormCfg(c) == [c EXCEPT !.stack = [j \in 1..Len(c.stack) |-> NormDesc(c.stack[j])]]
 
-Dummy == [objs |-> <<>>, last |-> <<>>, cres |-> NilPR, att |-> 0, ret |-> 0, hdg |-> 0, exe |-> 0, calls |-> 0, t0 |-> 0,
+Dummy == [objs |-> <<>>, last |-> <<>>, ast |-> <<>>, cres |-> NilPR, att |-> 0, ret |-> 0, hdg |-> 0, exe |-> 0, calls |-> 0, t0 |-> 0,
           rs |-> <<>>, final |-> NilPR, returned |-> FALSE, async |-> FALSE, cancel1 |-> FALSE, stored |-> FALSE, doneflag |-> FALSE, closed |-> FALSE, callobj |-> <<>>, spurious |-> 0, ck |-> "none"]
 
 InitPolOf(c) ==
